@@ -433,16 +433,16 @@ class NumpyUnpickler(Unpickler):
         self._dirname = os.path.dirname(filename)
 
         self.mmap_mode = mmap_mode
+        if not isinstance(file_handle, io.BufferedIOBase):
+            # read(n) of an unbuffered file object may return less than n
+            # bytes: the unpickler and the array readers need all of them.
+            file_handle = _ExactReadFile(file_handle)
         self.file_handle = file_handle
         # filename is required for numpy mmap mode.
         self.filename = filename
         self.compat_mode = False
         self.ensure_native_byte_order = ensure_native_byte_order
-        if isinstance(self.file_handle, io.BufferedIOBase):
-            Unpickler.__init__(self, self.file_handle)
-        else:
-            # read(n) of an unbuffered file object may return less than n bytes
-            Unpickler.__init__(self, _ExactReadFile(self.file_handle))
+        Unpickler.__init__(self, self.file_handle)
         try:
             import numpy as np
         except ImportError:
